@@ -12,7 +12,10 @@
    state so that the set of emitted scenarios does not depend on the order in which TLC's workers find the states.  The driver appends the save/re-open cycles (the model's SaveReopen
    is the identity on the body, a self-loop under the view).                                                         *)
 EXTENDS TextBody, Json
-CONSTANTS MAXLEN, ALPHA, PRIORS, SITES, DEPTH, BUILD
+CONSTANTS MAXLEN, ALPHA, PRIORS, SITES, DEPTH, BUILD,
+          REASSIGN     \* also assign, at frame and paragraph level, exactly the string that level READS at the moment (field same):
+                       \* the documented translation applies to it like to any other string (a newline a run holds as a character
+                       \* becomes a paragraph separator / a line break), the body is rebuilt, nothing may be skipped as "unchanged"
 VARIABLES st, hist
 
 Init == \E p \in PRIORS, site \in SITES :
@@ -33,20 +36,23 @@ DoSetCell      == st.site = "cell"  /\ Step([op |-> "SetCell", s |-> st.buf])
 DoSetShapeText == st.site = "shape" /\ Step([op |-> "SetShapeText", s |-> st.buf])
 DoSetPara      == \E i \in 1..Len(st.body) : Step([op |-> "SetPara", i |-> i, s |-> st.buf])
 DoSetRun       == \E i \in 1..Len(st.body) : \E j \in 1..Len(Runs(st.body[i])) : Step([op |-> "SetRun", i |-> i, j |-> j, s |-> st.buf])
-\* builders deepen the histories when BUILD (they carry no property clause; the driver replays them all the same)
 Idle == st.buf = <<>>
+DoReassignFrame == REASSIGN /\ Idle /\ Step([op |-> CASE st.site = "frame" -> "SetFrame" [] st.site = "cell" -> "SetCell" [] OTHER -> "SetShapeText",
+                                                s |-> FrameText(st.body), same |-> TRUE])
+DoReassignPara  == REASSIGN /\ Idle /\ \E i \in 1..Len(st.body) : Step([op |-> "SetPara", i |-> i, s |-> ParaText(st.body[i]), same |-> TRUE])
+\* builders deepen the histories when BUILD (they carry no property clause; the driver replays them all the same)
 DoAddPara      == BUILD /\ Idle /\ Len(st.body) < 3 /\ Step([op |-> "AddPara"])
 DoAddRun       == BUILD /\ Idle /\ \E i \in 1..Len(st.body) : Len(st.body[i].items) < 4 /\ \E s \in {<<>>, <<SP>>, <<PLAIN, NL>>} : Step([op |-> "AddRun", i |-> i, s |-> s])
 DoAddBreak     == BUILD /\ Idle /\ \E i \in 1..Len(st.body) : Len(st.body[i].items) < 4 /\ Step([op |-> "AddBreak", i |-> i])
 DoSetParaProp  == BUILD /\ Idle /\ \E i \in 1..Len(st.body), v \in 1..3 : Step([op |-> "SetParaProp", i |-> i, v |-> v])
 DoSaveReopen   == Idle /\ st.n < DEPTH /\ st' = st /\ hist' = Append(hist, [op |-> "SaveReopen"])
 Next == DoType \/ DoSetFrame \/ DoSetCell \/ DoSetShapeText \/ DoSetPara \/ DoSetRun \/ DoAddPara \/ DoAddRun \/ DoAddBreak
-        \/ DoSetParaProp \/ DoSaveReopen
+        \/ DoSetParaProp \/ DoSaveReopen \/ DoReassignFrame \/ DoReassignPara
 Spec == Init /\ [][Next]_<<st, hist>>
 
 ViewSt == st
 \* the transcription satisfies every clause of the property layer on every explored API transition
 Refines == [][hist' # hist => LET a == hist'[Len(hist')] IN Post(Obs(st.body), a, Obs(st'.body))]_<<st, hist>>
 \* the prior family, written out for the driver (single source: TextBody!PriorActs)
-ASSUME PrintT(<<"PRIORS", ToJson([p \in 1..4 |-> PriorActs(p)])>>)
+ASSUME PrintT(<<"PRIORS", ToJson([p \in 1..5 |-> PriorActs(p)])>>)
 =============================================================================
